@@ -327,7 +327,7 @@ class Models:
             st.assume(AND(cR <= cA + cB, cR >= cA, cR >= cB, IMPLIES(disj, cR == cA + cB)))
         elif on == 'BitAnd':
             st.assume(AND(cR <= cA, cR <= cB))
-        self.ex.use('L-CARD:cardinality of union / difference / intersection')
+        self.ex.use('L-CARD:cardinality of union / difference / intersection [Lean: Lemmas.card_sdiff_*, card_union_bounds]')
 
     def materialise(self, lazy, st):
         from .npmodel2 import materialise
